@@ -414,7 +414,12 @@ fn if_expression<'t>(ctx: Context<'t>) -> ParseResult<'t, Expression> {
     let (ctx, old_skip) = ctx.push_skip_newlines(true);
     let (ctx, condition) = expression(ctx)?;
     let ctx = ctx.pop_skip_newlines(old_skip);
-    let (ctx, body) = block(expect!(ctx, T::Do, "Expected 'do' after if condition"))?;
+    // `block` consumes the 'do' itself - consuming it here as well would also swallow the 'do'
+    // of a block statement that starts the branch when newlines are skipped (inside brackets).
+    if !matches!(ctx.token(), T::Do) {
+        raise_syntax_error!(ctx, "Expected 'do' after if condition");
+    }
+    let (ctx, body) = block(ctx)?;
     let condition = Some(condition);
 
     let mut branches = vec![{ IfBranch { span, condition, body } }];
@@ -427,7 +432,10 @@ fn if_expression<'t>(ctx: Context<'t>) -> ParseResult<'t, Expression> {
             let (ctx, old_skip) = ctx.push_skip_newlines(true);
             let (ctx, condition) = expression(ctx)?;
             let ctx = ctx.pop_skip_newlines(old_skip);
-            let (ctx, body) = block(expect!(ctx, T::Do, "Expected 'do' after elif condition"))?;
+            if !matches!(ctx.token(), T::Do) {
+                raise_syntax_error!(ctx, "Expected 'do' after elif condition");
+            }
+            let (ctx, body) = block(ctx)?;
             let condition = Some(condition);
             (ctx, IfBranch { span, condition, body })
         };
